@@ -490,6 +490,8 @@ func (u *c30ReentrantWriter) Write(p []byte) (int, error) {
 	return len(p), nil
 }
 
+var c30HexWViol int
+
 func c30HexWrite(v c30Vec) {
 	want := c30Digits(v.Val)
 	n64, err := strconv.ParseInt(want, 16, 64)
@@ -522,6 +524,9 @@ func c30HexWrite(v c30Vec) {
 	bw.Flush() //nolint:errcheck
 	got := string(u.data[fill:])
 	if got != want {
+		if c30HexWViol++; c30HexWViol > 30 {
+			return // enough examples; leave room for the other kinds
+		}
 		vfViol(fmt.Sprintf("hexw:%s:free=%d:other=%s", want, v.Free, c30Digits(v.M)),
 			fmt.Sprintf("writeHexInt(0x%s) into a bufio.Writer with %d free bytes, while another writeHexInt(0x%s) runs during the flush: the underlying writer received %q, expected %q",
 				want, v.Free, c30Digits(v.M), got, want),
